@@ -10,6 +10,7 @@ import (
 	"log/slog"
 	"math/rand/v2"
 	"runtime"
+	"slices"
 	"sort"
 	"strconv"
 	"strings"
@@ -628,7 +629,47 @@ func evalC19Tree(line string) Result {
 	if impl == "" {
 		impl = "-"
 	}
+	if direct == "ok" {
+		direct = c19LateValues()
+	}
 	return Result{Impl: impl, Direct: direct, Class: class}
+}
+
+// c19Valuer is a slog.LogValuer whose value changes over time.
+type c19Valuer struct{ state *string }
+
+func (v c19Valuer) LogValue() slog.Value { return slog.StringValue(*v.state) }
+
+// c19LateValues: a fixed scenario next to every tree case.  Attributes whose values are
+// slog.LogValuers (top-level and inside a group) are given to WithAttrs; the values change; then a
+// record is handled.  The message is the line slog.TextHandler prints for that record with those
+// attributes appended — resolved when the record is handled, as TextHandler does.
+func c19LateValues() string {
+	state := "starting"
+	attrs := []slog.Attr{slog.Any("state", c19Valuer{&state}), slog.Group("g", slog.Any("inner", c19Valuer{&state})), slog.Int("n", 1)}
+	w := &c19Writer{}
+	h := slogutil.NewJSONHybridHandler(w, &slog.HandlerOptions{Level: slog.LevelDebug}).WithAttrs(slices.Clone(attrs))
+	child := h.WithAttrs([]slog.Attr{slog.Any("state2", c19Valuer{&state})})
+	state = "running"
+	for i, hd := range []slog.Handler{h, child} {
+		w.buf = w.buf[:0]
+		r := slog.NewRecord(time.Time{}, slog.LevelInfo, "m", 0)
+		if err := hd.Handle(context.Background(), r); err != nil {
+			return fail("late-values", "Handle: %v", err)
+		}
+		as := slices.Clone(attrs)
+		if i == 1 {
+			as = append(as, slog.Any("state2", c19Valuer{&state}))
+		}
+		want := strings.TrimSuffix(string(c19RefLine(-4, 0, time.Time{}, "m", as)), "\n")
+		var m struct {
+			Message string `json:"message"`
+		}
+		if err := json.Unmarshal(w.buf, &m); err != nil || m.Message != want {
+			return fail("late-values", "attributes that are LogValuers, values changed after WithAttrs: message %q, slog.TextHandler prints %q (%v)", m.Message, want, err)
+		}
+	}
+	return "ok"
 }
 
 // --- concurrency ---------------------------------------------------------------------
